@@ -39,7 +39,7 @@ def showWrite (w : Write) : String :=
 def showStep (k : Kind) (ws : List Write) : String :=
   let body := "[" ++ "+".intercalate (ws.map showWrite) ++ "]"
   match k with
-  | .response => (if ws.any (·.tls) then "S" else "R") ++ body
+  | .response => "R" ++ body
   | .tunnel => "T" ++ body
   | .invalid => "E" ++ body
   | .ignored => "I" ++ body
